@@ -87,6 +87,11 @@ class LinFacts:
         self._atoms_done.add(a)
         if self.hook:
             self.hook(a, self)
+        # a range bound written with operator calls on references
+        if a[0] == "call" and isinstance(a[1], str) and a[1].endswith("std::ops::Add<usize>>::add") and len(a[2]) == 2:
+            e = sub(({a: 1}, 0), (lambda x, y: ({**x[0], **{k: x[0].get(k, 0) + v for k, v in y[0].items()}}, x[1] + y[1]))(lin(a[2][0]), lin(a[2][1])))
+            self.add_ge0(e)
+            self.add_ge0(scale(e, -1))
         if a[0] == "bin" and a[1] == "Div" and cint(a[3]) and cint(a[3]) > 0:
             k = cint(a[3])
             x = lin(a[2])
@@ -112,6 +117,20 @@ class LinFacts:
                 e = sub(sub(lin(s[3]), lin(s[2])), ({a: 1}, 0))
                 self.add_ge0(e)
                 self.add_ge0(scale(e, -1))
+        # index of `for (j, x) in seq.iter().enumerate()`: j < len(seq)
+        if a[0] == "field" and a[2] == ("f", "0") and isinstance(a[1], tuple) and a[1][0] == "unwrap" and isinstance(a[1][1], tuple) and a[1][1][0] == "call" \
+                and isinstance(a[1][1][1], str) and a[1][1][1].endswith("Enumerate<I> as std::iter::Iterator>::next"):
+            it = a[1][1][2][0]
+            n = 0
+            while isinstance(it, tuple) and it and n < 6:
+                if it[0] == "phi" and it[4] is not None:
+                    it = it[4]
+                elif it[0] == "call" and isinstance(it[1], str) and (it[1].endswith("Iterator::enumerate") or it[1].endswith("::iter") or it[1].endswith("::into_iter")) and it[2]:
+                    it = it[2][0]
+                else:
+                    break
+                n += 1
+            self.add_le(a, ("len", it), strict=True)
         # loop variable of `for i in lo..hi`
         if a[0] == "unwrap" and isinstance(a[1], tuple) and a[1][0] == "call" and a[1][1].endswith("Range<A>>::next"):
             it = a[1][2][0]
